@@ -44,6 +44,12 @@ func main() {
 	for _, proto := range []int{4, 2, 3, 5, 1} {
 		hs = append(hs, c01lib.WrongVersionHist(len(hs), proto, 6))
 	}
+	// a per-request framing error must consume the frame: compress-flagged answers without a compressor
+	for variant := 1; variant <= 3; variant++ {
+		for _, proto := range []int{4, 2} {
+			hs = append(hs, c01lib.FlagBodyHist(len(hs), proto, variant))
+		}
+	}
 	for i := len(hs); i < n; i++ {
 		hs = append(hs, c01lib.Gen(o.Rng, i, c01lib.Lifecycle))
 	}
